@@ -1,5 +1,6 @@
 import Pywbem.Model.CimJson
 import Pywbem.Model.Envelope
+import Pywbem.Generated.RspTables
 open Lean Pywbem.Proto Pywbem.Model Pywbem.Model.CimJson Pywbem.Model.XmlText Pywbem.Model.Envelope
 
 /-! C02 driver.  ops:
@@ -44,13 +45,18 @@ def postOfJson (j : Json) : Post :=
   | some "classNameList" => .classNameList | some "oneClass" => .oneClass | some "qdeclList" => .qdeclList
   | some "oneQdecl" => .oneQdecl | _ => .invoke
 
-def specOfJson (j : Json) : OpSpec :=
-  { kind := match getStr j "kind" with
-      | some "method" => .method | some "export" => .export | _ => .imethod,
-    meth := (getChars j "meth").getD [],
-    hasRet := (getBool j "has_return_value").getD true,
-    hasOut := (getBool j "has_out_params").getD false,
-    post := postOfJson j }
+/-- operation signature: call kind, CIM-XML method name and has_return_value / has_out_params come from
+    the table regenerated from pywbem/_cim_operations.py (key: the Python method whose `_imethodcall` /
+    `_methodcall` / `_iexportcall` call handles the response); only InvokeMethod's method name and the
+    result shape come from the harness -/
+def specOfJson (j : Json) : Option OpSpec :=
+  let py := (getStr j "py").getD ""
+  match Pywbem.Generated.Rsp.opFlags.find? (fun r => r.1 == py) with
+  | none => none
+  | some (_, meth, kind, hr, ho) =>
+    some { kind := (if kind == "method" then .method else if kind == "export" then .export else .imethod),
+           meth := (if kind == "method" then (getChars j "meth").getD [] else meth.toList),
+           hasRet := hr, hasOut := ho, post := postOfJson j }
 
 def httpOfJson (j : Json) : HttpResp :=
   { status := (getNat j "status").getD 200,
@@ -96,7 +102,9 @@ def handle (j : Json) : Json :=
   match getStr j "op" with
   | some "rsp" =>
     let C := envCodecOfJson (getField j "codec")
-    let spec := specOfJson (getField j "spec")
+    match specOfJson (getField j "spec") with
+    | none => Json.mkObj [("bad", "unknown operation")]
+    | some spec =>
     let h := httpOfJson (getField j "http")
     let body : Option Xml := match getField j "tree" with
       | .null => none
